@@ -215,22 +215,25 @@ func checkC11(c *Ctx) {
 	if ev != nil {
 		fl := NewFlow(p, ev)
 		ok, gateAt := false, false
-		eachInstr(ev, func(in ssa.Instruction) {
+		// (the removal may sit in a private helper, with the capacity test in the caller or in a predicate helper)
+		for _, d := range deepInstrs(fl, func(in ssa.Instruction) bool {
 			call, isCall := in.(*ssa.Call)
 			if !isCall {
-				return
+				return false
 			}
-			if b, isB := call.Call.Value.(*ssa.Builtin); isB && b.Name() == "delete" {
-				k := fl.K.Key(call.Call.Args[1])
-				if strings.Contains(k, "(*container/list.List).Remove(&p0->hs/security/cert.Cache.accessOrder, (*container/list.List).Back(&p0->hs/security/cert.Cache.accessOrder)") {
-					ok = true
-					// reached only at capacity (early return below capacity, or the removal nested under the test)
-					if hasCmp(fl.At(in), "<=", is("p0->hs/security/cert.Cache.capacity"), func(k string) bool { return strings.HasPrefix(k, "builtin len(p0->hs/security/cert.Cache.entries)") }) {
-						gateAt = true
-					}
+			b, isB := call.Call.Value.(*ssa.Builtin)
+			return isB && b.Name() == "delete"
+		}, 0) {
+			call := d.Instr.(*ssa.Call)
+			k := d.Key(call.Call.Args[1])
+			if strings.Contains(k, "(*container/list.List).Remove(&p0->hs/security/cert.Cache.accessOrder, (*container/list.List).Back(&p0->hs/security/cert.Cache.accessOrder)") {
+				ok = true
+				// reached only at capacity (early return below capacity, or the removal nested under the test)
+				if hasCmp(d.Facts, "<=", is("p0->hs/security/cert.Cache.capacity"), func(k string) bool { return strings.HasPrefix(k, "builtin len(p0->hs/security/cert.Cache.entries)") }) {
+					gateAt = true
 				}
 			}
-		})
+		}
 		gate := gateAt
 		c.Check(ok && gate, "C11.5", "evict: removes the least recently used key from both structures, only at capacity", p.FuncPos(ev),
 			"delete(entries, accessOrder.Remove(accessOrder.Back())); nothing is evicted while len(entries) < capacity", "same-key removal: "+boolStr(ok)+", capacity gate: "+boolStr(gate))
